@@ -28,7 +28,7 @@ def make (dbg : Bool) (re im : K) : Except Err (SO2 K) := do
   checkUnit dbg (V2.mk re im).norm
   pure ⟨re, im⟩
 /-- `SO2(theta)` constructor -/
-def ofAngle (dbg : Bool) (θ : K) : Except Err (SO2 K) := make dbg (Scalar.cos θ) (Scalar.sin θ)
+def ofAngle (dbg : Bool) (θ : K) : Except Err (SO2 K) := make dbg (Scalar.cosUnq θ) (Scalar.sinUnq θ)
 end SO2
 
 namespace SO2T
